@@ -239,3 +239,23 @@ contract(
     assumptions=["no hash collision between alias-name sets", "what the two rebuild loops compute is the ghost function merged (bounded histories only)"],
     from_property="never goes stale: every view (`name in`, iteration, completion) is computed from a table that is rebuilt whenever a listing, the $PATH order or the alias names changed",
 )
+
+
+# ---- the views themselves: every one refreshes the table before it answers (never a lazy answer from a stale table) --------------------------
+VIEW_EXT = {
+    "CommandsCache.update_cache": Ext(ret=TABLE, event="refresh", log="const", log_type=Int, note="its own contract: the table handed out is the merge of the CURRENT listings, order and aliases"),
+    "CommandsCache.lazyin": Ext(ret=Bool, pure=True, uf="lazy_in", note="membership in the table held (reads only)"),
+    "CommandsCache.lazyget": Ext(ret=Opaque("entry"), pure=True, uf="lazy_get"),
+    "lazy_in": Ext(ret=Bool, pure=True, uf="lazy_in"), "lazy_get": Ext(ret=Opaque("entry"), pure=True, uf="lazy_get"),
+}
+CCV = Obj("CommandsCache", _cmds_cache=TABLE)
+contract(
+    CC + "CommandsCache.__contains__", "C08", params=dict(self=CCV, key=Str), externals=VIEW_EXT, returns=Bool, emits=["refresh"], config={"no_memo": True},
+    ensures={"the-table-is-refreshed-exactly-once-before-the-answer": "len(log('refresh')) == 1", "and-the-answer-is-the-table's": "result == lazy_in(self, key)"},
+    from_property="`name in` checks ... agree with the file system (never answered from a table that was not refreshed first)",
+)
+contract(
+    CC + "CommandsCache.__getitem__", "C08", params=dict(self=CCV, key=Str), externals=VIEW_EXT, returns=Opaque("entry"), emits=["refresh"], config={"no_memo": True},
+    ensures={"the-table-is-refreshed-exactly-once-before-the-answer": "len(log('refresh')) == 1", "and-the-answer-is-the-table's": "result == lazy_get(self, key)"},
+    from_property="every view xonsh offers of the available commands agrees with the file system",
+)
